@@ -17,6 +17,7 @@ def main(tier):
     c.run_family('asan', 'c15', 'anyelement', env=env)
     c.run_family('asan', 'c15', 'explain', env=env, chunk=4, per_case_timeout=30)
     c.run_family('asan', 'c15', 'imports', env=env, per_case_timeout=5)
+    c.run_family('asan', 'c15', 'attrgrid', env=env, per_case_timeout=10)
     c.run_family(corpus_flavour, 'c15', 'corpus', env=env, chunk=12 if quick else 8, per_case_timeout=30)
     if corpus_flavour == 'plain':
         # a crash on the plain library is a bare SIGSEGV; re-run exactly those documents on the ASan library so that the
@@ -34,12 +35,16 @@ def main(tier):
              '(valid, CellML 1.1, errors related/unrelated to the imported entity, warnings, not XML, empty, missing, missing target, nested, cyclic, missing units) '
              'x strict/permissive importer, resolved twice (disk, then library) and flattened; corpus: every single deviation (delete/duplicate/rename/empty an '
              'element; delete/rename/empty/garbage/copy-sibling-value an attribute) of 4 seed documents x strict/permissive through parser, validator, printer '
-             '(with and without autoIds), analyser, importer (resolve + flatten + analyse), annotator. Every case is distinct by construction (index -> case is '
+             '(with and without autoIds), analyser, importer (resolve + flatten + analyse), annotator; attrgrid: every element of a CellML 2.0 and a 1.1 base document '
+             '(all element kinds, component_ref at 3 nesting levels) x every position in its attribute list x {unknown attribute, same-local-name attribute in a foreign / the CellML '
+             'namespace, required attribute missing (+ unknown attribute at every position), attribute value unresolvable (+ unknown attribute at every position)} x strict/permissive '
+             'parser, then validator, printer, importer. Every case is distinct by construction (index -> case is '
              'injective); judged = cases in which at least one service call was followed by the coherence checker' % slots,
         assumptions=[
             'coherence checker = vf::loggerIncoherence in harness/common.hpp, written from the statement: counts add up; error/warning/message(i) enumerate issue(j) of that level in order; '
             'index = count, count+1 and SIZE_MAX return null for all four accessors; description non-empty; level and rule inside their enumerations; heading/url do not throw; '
             'exactly the typed getter designated for item()->type() may return an object and it is the stored object; the stored std::any has the pointer type that belongs to the type',
+            'in addition (harness/c15.cpp, every issue of every call made by this check): an item whose type is not UNDEFINED holds an existing object of that kind (the designated getter is non-null; for MATH the stored Component is non-null)',
             '"fails" is read from the statement: parseModel/flattenModel return null, resolveImports returns false, an annotator typed getter returns nullptr / item() returns an UNDEFINED item / '
             'assignId returns "" / assignAllIds or assignIds return false without a model, analysed type is INVALID, UNDER-, OVER- or UNSUITABLY_CONSTRAINED',
             'assignAllIds()/assignIds() returning false because nothing lacked an id is not a failure and is not judged',
